@@ -2,7 +2,8 @@ SPECIFICATION Spec
 CONSTANTS
   Subjects = {"alice", "bob"}
   MaxReq = 2
+  MaxIdp = 1
   MaxSteps = 6
-INVARIANTS Authentic NoReplay PendingSane Emit
+INVARIANTS Authentic NoReplay PendingSane AnswersOnlyIdP Emit
 PROPERTIES LogoutOnlyByIdP
 CHECK_DEADLOCK FALSE
